@@ -601,7 +601,7 @@ impl Property for C16 {
     const ID: &'static str = "C16";
     const RULE: &'static str = "proptest-generated operation sequences (1..25 ops, optionally followed by 1..4 per-thread suffixes run concurrently on the dealt-out objects) over {new session, clone, every public \
 setter with values from small domains, header / header_append over colliding names incl. accept, user-agent, accept-encoding, create builder, builder setters and header ops, prepare, send, send prepared}; after every step the \
-settings snapshot and header map of every live object must equal the value-semantics model, and each send must behave on the wire per the model (redirect bound, max_headers acceptance, proxy dialled, header fields). \
+settings snapshot and header map of every live object must equal the value-semantics model, and each send must behave on the wire per the model (redirect bound, max_headers acceptance, proxy dialled, header fields; for the quarter of builders with an https URL: proxy dialled for the CONNECT hop and max_headers applied to the proxy's reply). \
 non-trivial = the sequence writes to an object after another object was derived from it";
 
     fn assumptions() -> Vec<String> {
